@@ -166,7 +166,16 @@ func verifHarness_Z4_DstIndependence() {
 	msg := nondetBytes("msg", 1)
 	nTape := nondetU8("ntape")
 	verifAssume(nTape <= 5)
-	blob := verifFrame(nondetU8("ver"), 0, nTape, 0, nil, 1, 0, msg, byte(nTags), 0, tags, byte(8*nVals), 0, vals)
+	// framing consistent, or a block one byte shorter than the size declared for it (whatever then fills the rest of the
+	// buffer must not depend on what the reused objects held)
+	msgDecl, tagDecl := byte(1), byte(nTags)
+	switch verifChoice("short", 3) {
+	case 1:
+		msgDecl = 2
+	case 2:
+		tagDecl = byte(nTags) + 1
+	}
+	blob := verifFrame(nondetU8("ver"), 0, nTape, 0, nil, msgDecl, 0, msg, tagDecl, 0, tags, byte(8*nVals), 0, vals)
 	s1 := NewSerializer()
 	r1, e1 := s1.Deserialize(blob, nil)
 	s2 := NewSerializer()
